@@ -426,6 +426,40 @@ def bulk_case(ctx, ssnet, nframes, then_eof):
     return log
 
 
+def backlog_case(ctx, ssnet, nframes, payload_len, grant):
+    """A backlog at the sender: `nframes` frames queued before the pipe takes anything, then flushed with at most
+    `grant` bytes per write; the receiver reads up to 32 KiB at a time.  Whatever batch size, byte cap or per-wake-up
+    limit either side works with, the messages decoded are the messages sent."""
+    frames = [(1 + i % 65535, ssnet.CMD_TCP_DATA, bytes([(i * 7 + j) % 251 for j in range(min(payload_len, 251))]) *
+               (payload_len // 251 + 1)) for i in range(nframes)]
+    frames = [(c, m, d[:payload_len]) for (c, m, d) in frames]
+    p = Pair(ssnet)
+    log = CaseLog('backlog')
+    log.add(p.new())
+    for f in frames:
+        log.add(p.send(*f))
+    wire = b''
+    guard = 0
+    while p.a.outbuf and guard < 200000:
+        guard += 1
+        w0 = len(p.aw.written)
+        log.add(p.flush(grant))
+        wire += p.aw.written[w0:]
+    for k in range(0, len(wire), 32768):
+        if p.dead:
+            break
+        log.add(p.handle('d', wire[k:k + 32768]))
+    want = [(0, ssnet.CMD_PING, b'chicken')] + frames if p.delivered and p.delivered[0][1] == ssnet.CMD_PING else frames
+    if p.dead or p.delivered != want:
+        ctx.violation('C07:backlog:decoded-differs-from-sent',
+                      case=vcase(stream='backlog', nframes=nframes, payload_len=payload_len, grant=grant),
+                      expected='%d messages, as sent' % len(want),
+                      observed='%d messages decoded, receiver_failed=%s, %d bytes on the wire' % (len(p.delivered), p.dead, len(wire)),
+                      kind='input')
+    log.nontrivial = True
+    return log
+
+
 def ping_during_partial_write(ctx, ssnet, rng, grant, payload_len):
     """A PING is handled (the real got_packet queues the PONG) while a partially written frame is at the head
     of the sender's queue: the byte stream on the wire must still decode to the frames sent, in order."""
@@ -703,6 +737,8 @@ def gen_cases(ctx):
     for plen, reads in ((40000, (32768,)), (40000, (20000, 20008)), (65535, (32768,)), (65535, (1000, 32768)),
                         (32761, (32768,)), (32760, (32767, 1))):
         logs.append(big_frame_case(ctx, ssnet, plen, reads))
+    for nfr, plen, grant in ((33, 2048, 1 << 20), (70, 2048, 65536), (300, 1, 1 << 20), (1200, 0, 4096), (40, 65535, 1 << 20)):
+        logs.append(backlog_case(ctx, ssnet, nfr, plen, grant))
     for grant in (1, 7, 8, 9, 30):
         for plen in (0, 1, 100, 2048):
             logs.append(ping_during_partial_write(ctx, ssnet, rng, grant, plen))
@@ -796,7 +832,7 @@ def run(ctx):
         ctx.count()
         ctx.hist(lg.kind)
         ctx.mark(lg.ins, lg.nontrivial)
-    for kind in ('pipe', 'cuts', 'garbage', 'handshake', 'send-domain', 'bulk', 'ping-mid-frame'):
+    for kind in ('pipe', 'cuts', 'garbage', 'handshake', 'send-domain', 'bulk', 'backlog', 'ping-mid-frame'):
         for lg in logs:
             if lg.kind == kind:
                 ctx.sample(dict(kind=kind, input=[l[:120] for l in lg.ins[:8]], real_code_output=[l[:120] for l in lg.outs[:8]]))
@@ -823,6 +859,10 @@ def replay(ctx, rep):
         c2 = type(ctx)(ctx.prop_id, 'quick', 0)
         transport_shim_case(c2, ssnet, helpers, case['grant'], tuple(case['payload_lens']))
         return bool(c2.violations), (str(c2.violations[0]['observed']) if c2.violations else 'the shim hands on the bytes written')
+    if case.get('stream') == 'backlog':
+        c2 = type(ctx)(ctx.prop_id, 'quick', 0)
+        backlog_case(c2, ssnet, case['nframes'], case['payload_len'], case['grant'])
+        return bool(c2.violations), (str(c2.violations[0]['observed']) if c2.violations else 'the messages decoded are the messages sent')
     if case.get('stream') == 'big-frame':
         c2 = type(ctx)(ctx.prop_id, 'quick', 0)
         big_frame_case(c2, ssnet, case['payload_len'], tuple(case['reads']))
